@@ -35,14 +35,29 @@ RULE = ("full finite grid: steps {setup M2,M4,M6, verify M2,M4, add/remove pairi
         "close_after_operation(), link drop / reset (reconnect possible or not), the caller's cancellation, a new advertisement / zeroconf record, a second add / remove / list pairing or "
         "get_characteristics call} x schedule {action before / at the instant of / after the reply; link down before / at / after the reply; everything immediate} + random schedules; oracle: a call "
         "whose scripted error / wrong-step reply was handed to the library by the transport never returns normally (None / True / data), never hangs, leaves no session, sends nothing further as if verified; "
-        "attribution of a delivered reply to a caller by the harness's own bookkeeping (identifier in the request, order of events at the accessory)")
+        "attribution of a delivered reply to a caller by the harness's own bookkeeping (identifier in the request, order of events at the accessory). "
+        "Reply delivery over BLE (stream ble-delivery): for every pair-setup / pair-verify step (M2/M4/M6, M2 first / resumed / resume declined, M4) x entry point {_async_pair_verify, BleDiscovery start / finish "
+        "pairing, every public BlePairing operation that verifies first} every way the accessory may deliver the step's answer, one utterance per write of the controller - unfragmented; a complete "
+        "FragmentData.. FragmentLast transfer under every kind of split (one envelope, cuts at 1, 2, 3, 5 bytes, the middle, record boundaries, the last bytes, fixed chunk sizes 1..256, empty chunks, an empty "
+        "FragmentLast); a transfer of the genuine reply / of this / of another error reply ABORTED after k = 1, 2, .. envelopes (chunks that are whole TLV records or end inside one, an empty chunk, the whole "
+        "body) by the unfragmented error / wrong-step reply; the same followed by further fragments if the controller asks on; Error items inside any fragment; random compositions - oracle: the harness reads "
+        "what the library was handed by itself (chunks accumulate, FragmentLast completes, an unfragmented reply stands alone and abandons the transfer); when that first complete reply carries an error / a "
+        "foreign step number the operation fails with the documented class, returns nothing, leaves no session / pairing. The same replies over IP also as chunked transfer coding and as TCP segments down to "
+        "one byte (wire shapes of stream ip / top). Top level (stream top): aiohomekit.Controller entered with `async with` (IP, CoAP and BLE backends registered by async_start; zeroconf browser / cache, BLE "
+        "scanner + GATT link, aiocoap Context and TCP replaced, virtual time), pairing loaded by load_pairing / load_data / before or after the advertisement, then Controller.remove_pairing(alias), "
+        "controller.aliases[alias].add_pairing / remove_pairing (own, other) / list_pairings, Controller.async_find -> start / finish pairing (BLE), and the command line application's unpair / remove_pairing / "
+        "pair commands (aiohomekit.__main__ on a pairing file + characteristic cache file) x step {verify M2/M4, add / remove pairing M2, setup M2/M4/M6} x reply shape x what the accessory does behind its "
+        "reply {keeps the link, closes it, drops it at the instant the reply was handed over, with / without the stack reporting it}; oracle: an operation whose error / wrong-step reply was handed to the library "
+        "never returns normally (never True / None / data), installs nothing, sends nothing further as if verified, and the application's pairing file does not come to claim the outcome")
 TRUSTED = ["reference accessory (harness/refacc.py: cryptography + RFC 5054 formulas) used to reach M4/M6 and verify-M4 with genuine earlier messages"]
 ASSUMPTIONS = ["'other reply fields' = every subset of the fields the protocol defines for that reply, plus items of types the step does not expect (RetryDelay, Certificate) placed in front of the Error item",
                "pair-setup steps M4/M6 are reached with a stub SRP client (SRP itself is C02/C03): handle_state_step runs before any SRP value is used; a sample of the transport-level pair-setup cells uses the real SRP client against harness/refacc.SrpServer",
                "transport level: the bleak client (GATT reads / writes) and aiocoap's Context are replaced, the clock is virtual; for an operation that merely runs pair-verify first (BLE public operations, CoAP connect() and CoAPPairing operations) the property is read as: fails with a library error, never returns normally, no session, no further request sent as if verified - the documented class is demanded of the procedure's own driver",
                "the scripted accessory is persistent: it gives the scripted reply every time the step is reached; an accessory that answers an error once and a genuine reply on a later attempt is not judged (whether a retry may succeed is not the property's business)",
                "concurrent lifecycle: 'the accessory answered the request' is read as: the transport handed the complete scripted reply to the library for that call (the last GATT read of it returned / the bytes were accepted by the open TCP transport / the CoAP response future was resolved). A call whose reply never arrived because shutdown() / close() / a link drop / the cancellation won the race is not judged (on the unchanged library BlePairing operations then return None once _shutdown is set, or fail with BleakError - neither is this property's business). For a call that did receive the error reply the demand is the property's core: it never returns normally; a library error of ANY class is accepted (e.g. AccessoryDisconnectedError when the link went away right after the reply), CancelledError is accepted as the outcome of a cancellation, and when the application itself tears the link down underneath the call (shutdown / close / close_after_operation / link drop / cancel) a non-library exception class is recorded in the notes but not reported (observed on the unchanged library: IpPairing.add_pairing / remove_pairing whose error reply travels with an HTTP 4xx status raise AttributeError from post_tlv's self.transport.close() when close() / shutdown() of another task runs between the reply's arrival and the waiting task's resumption); with a second operation or a new advertisement (nothing is torn down) a non-library exception IS reported. The second operation is judged only where the property speaks about it: add / remove pairing for the pairings step, any operation for the pair-verify steps (it cannot have a session); list_pairings replies are not the property's business",
-               "BLE value-fragment envelope: in _pairing_char_write a pair-setup / pair-verify reply that carries a FragmentLast (or FragmentData) item NEXT TO State / Error items - e.g. [State=M4, Error=0x02, FragmentLast=''] - is taken for a fragment envelope, the reassembled (empty) buffer decodes to {} and the Error item is lost. FragmentData / FragmentLast (TLV types 12 / 13) are the transport's fragmentation envelope, not fields of a pairing reply; a conformant accessory never mixes them with reply items, so such a reply lies outside 'whichever other fields the reply does or does not carry' and is neither generated nor reported here (the 'other fields' are the protocol's reply fields and unexpected reply items such as RetryDelay / Certificate). Properly fragmented replies (the error reply split over FragmentData... FragmentLast envelopes) ARE exercised by the ble stream (vfrag)"]
+               "BLE value-fragment envelope: in _pairing_char_write a pair-setup / pair-verify reply that carries a FragmentLast (or FragmentData) item NEXT TO State / Error items - e.g. [State=M4, Error=0x02, FragmentLast=''] - is taken for a fragment envelope, the reassembled (empty) buffer decodes to {} and the Error item is lost. FragmentData / FragmentLast (TLV types 12 / 13) are the transport's fragmentation envelope, not fields of a pairing reply; a conformant accessory never mixes them with reply items, so such a reply lies outside 'whichever other fields the reply does or does not carry' and is neither generated nor reported here (the 'other fields' are the protocol's reply fields and unexpected reply items such as RetryDelay / Certificate). Properly fragmented replies (the error reply split over FragmentData... FragmentLast envelopes) ARE exercised by the ble stream (vfrag)",
+               "reply delivery over BLE: 'the accessory answers the step with' is read as the FIRST complete reply among what the library was handed for one attempt at the step, reassembled by the harness's own reader: FragmentData chunks accumulate (each is acknowledged by the controller's empty FragmentData write), FragmentLast completes the transfer, an unfragmented reply (a value without envelope) is a reply by itself and abandons the transfer under way. A transfer that ends inside a TLV record, a reply with two different State or Error items and a reply that carries envelope types next to reply items are not judged. A reply is delivered in at most 40 envelopes (the library gives up after 50 and then raises ValueError - a bound, not judged). Only pair-setup and pair-verify replies are delivered in fragments: the add / remove pairing reply is six bytes and the library does not reassemble it (probe recorded in the notes: a pairings reply wrapped in a FragmentLast envelope is read as 'no State, no Error')",
+               "top level: the accessory 'answered' when the complete scripted reply was handed to the library (last GATT read returned / bytes accepted by the open TCP transport / CoAP response resolved). When the accessory keeps the link up the demands are those of the transport streams (a library error; the documented class for IP add-pairing and for the library's own pair-setup driver). When the accessory itself closes or drops the link behind its reply only the property's core is demanded - the call does not return normally, nothing is installed, nothing is sent as if verified; the class of the failure is recorded in the notes (observed on the unchanged library: IpPairing add / remove pairing whose error reply travels with an HTTP 4xx status raise AttributeError from post_tlv's self.transport.close() when the accessory closes or resets the TCP connection right behind the reply). For the command line application a command that returns False or exits with a non-zero status has reported the failure. Controller.aliases after a FAILED Controller.remove_pairing is recorded only: the unchanged library forgets the alias before it asks the accessory and never puts it back; what is judged is the pairing FILE after `unpair` (it is only rewritten after the call returned). The BLE backend is enabled the way an installation enables it (aiohomekit.const.BLE_TRANSPORT_SUPPORTED, decided at import from the environment)"]
 EXPLANATION = "Lean theorems C04_* over handle_state_step/error_handler/expectation lists (tables regenerated from source) for arbitrary replies; exhaustive differential grid on the real generators"
 
 CODES = [None, b"\x01", b"\x02", b"\x03", b"\x04", b"\x05", b"\x06", b"\x07", b"\x00", b"\x08", b"\xff", b"\x02\x00", b""]
@@ -221,8 +236,10 @@ def run(ctx: Ctx, driver: Driver):
     ip_http_grid(ctx, rng)
     pairings(ctx, driver, rng)
     ble_transport_grid(ctx, rng)
+    ble_delivery_grid(ctx, rng)
     coap_transport_grid(ctx, rng)
     ip_transport_grid(ctx, rng)
+    top_grid(ctx, rng)
     live_grid(ctx, rng)
 
 
@@ -906,7 +923,7 @@ async def _ble_cell(case):
     rng = _r.Random(case.get("seed", 0))
     rb = lambda n: bytes(rng.randrange(256) for _ in range(n))  # noqa: E731
     db = _ble_db()
-    acc = _BleAcc(case, rb, db["names"])
+    acc = (_BleDeliveryAcc if case.get("delivery") else _BlePairingsEnvelopeAcc if case.get("pairings_envelope") else _BleAcc)(case, rb, db["names"])
     radio = _Radio(acc, case.get("mtu", 512))
     controller = BleController(CharacteristicCacheMemory())
     op = case["op"]
@@ -960,6 +977,8 @@ async def _ble_cell(case):
         if case.get("step") in ("verifyM2", "verifyM4") and pairing.is_connected:
             obs["keys"] = "BlePairing.is_connected is True"
     obs.update(out=out, scripted=len(acc.scripted_at), requests=acc.requests, runaway=acc.runaway, after=_after(acc, own), completed=list(acc.completed))
+    if case.get("delivery"):
+        obs["said"] = acc.attempts
     return obs
 
 
@@ -1001,7 +1020,8 @@ def _run_cells(ctx, loop, cases, cell):
             loop.run_until_complete(asyncio.gather(*pend, return_exceptions=True))
         ctx.evaluations += 1
         ctx.nontrivial.add((case["stream"], case["op"], case.get("step"), case.get("state"), case.get("code"), case.get("fields"), case.get("order"),
-                            case.get("vfrag"), case.get("pdu_split"), case.get("resume"), case.get("honour_resume"), case.get("ff"), case.get("srp"), case.get("with_auth"), str(case.get("http"))))
+                            case.get("vfrag"), case.get("pdu_split"), case.get("resume"), case.get("honour_resume"), case.get("ff"), case.get("srp"), case.get("with_auth"), str(case.get("http")),
+                            str(case.get("wire"))))
         ctx.dist[f"{case['stream']}:{case['op']}:{case.get('step') or 'genuine'}:{obs['out']}"] += 1
         if case.get("step") is None and not obs["out"].startswith("ok"):
             ctx.notes.append(f"{case['stream']} {case['op']}: the genuine control exchange ended with {obs['out']} (the property makes no claim; the error cells of this entry point may not reach their step)")
@@ -1052,6 +1072,379 @@ def ble_transport_grid(ctx: Ctx, rng):
     ctx.notes.append(f"BLE transport: {len(cases)} cells (entry point x step x reply shape x PDU / value fragmentation) through the real ble_request, PDU codec, _pairing_char_write, "
                      "drive_pairing_state_machine, BlePairing and BleDiscovery against an independent HAP-BLE accessory; the accessory repeats the scripted reply on every attempt")
 
+
+
+# ------------------------------------------------------------------------------------------------ BLE, reply delivery
+# Every way a HAP-BLE accessory may DELIVER the reply of a pair-setup / pair-verify step (stream ble-delivery).  The value of
+# the pairing characteristic is either the reply itself (an unfragmented reply) or one envelope of a fragmented transfer:
+# FragmentData(chunk) - acknowledged by the controller with an empty FragmentData write - ... FragmentLast(chunk).  What the
+# accessory says for one attempt at the step is a list of such utterances, one per write of the controller.  The harness
+# reads them itself (`_logical_reply`): chunks accumulate, FragmentLast completes the transfer, an unfragmented reply stands
+# by itself and abandons whatever transfer was under way.  The FIRST complete reply decides what the property demands.
+GENUINE = "genuine"
+MAX_ENVELOPES = 40  # a reply is delivered in at most this many envelopes (no accessory needs more: 40 x 20 bytes > any pairing reply)
+
+
+def _read_items(b):
+    """the harness's own strict TLV8 reader -> [(type, value)] (neighbouring records of one type are one value), None when
+    the bytes are not a whole number of records"""
+    out, i = [], 0
+    while i < len(b):
+        if i + 2 > len(b) or i + 2 + b[i + 1] > len(b):
+            return None
+        t, v = b[i], bytes(b[i + 2:i + 2 + b[i + 1]])
+        i += 2 + len(v)
+        if out and out[-1][0] == t:
+            out[-1] = (t, out[-1][1] + v)
+        else:
+            out.append((t, v))
+    return out
+
+
+def _record_bounds(b):
+    """offsets at which a TLV8 record of `b` ends (0 and len(b) included)"""
+    out, i = [0], 0
+    while i + 2 <= len(b) and i + 2 + b[i + 1] <= len(b):
+        i += 2 + b[i + 1]
+        out.append(i)
+    if out[-1] != len(b):
+        out.append(len(b))
+    return out
+
+
+def _pos(tok, n, bounds):
+    """a cut position inside a body of n bytes: an offset (negative = from the end), None = the end, 'h' = the middle,
+    'b<k>' = the end of the k-th record (negative k = from the end)"""
+    if tok is None:
+        return n
+    if isinstance(tok, int):
+        return max(0, min(n, tok if tok >= 0 else n + tok))
+    if tok == "h":
+        return n // 2
+    k = int(tok[1:])
+    k = max(-len(bounds), min(len(bounds) - 1, k if k >= 0 else k - 1))
+    return bounds[k]
+
+
+class _BleDeliveryAcc(_BleAcc):
+    """_BleAcc whose scripted step is answered by a scripted DELIVERY (case['delivery']: list of utterances
+    {'u': 'plain', 'reply': spec} | {'u': 'data' | 'last', 'reply': spec, 'from': pos, 'to': pos} |
+    {'u': 'stream', 'reply': spec, 'size': n, 'end': 'data' | 'last', 'from': pos, 'to': pos}; spec = 'genuine' or a reply
+    shape {state, code, fields, order} rendered with the exchange's genuine fields) - on every attempt at the step.  When the
+    controller goes on acknowledging after the script's end the last utterance is repeated."""
+
+    def __init__(self, case, rb, names):
+        super().__init__(case, rb, names)
+        self.attempts = []  # per attempt at the scripted step: [{'kind', 'chunk', 'read'}] in the order they were said
+        self.todo = None
+        self.live_name = None
+        self.genuine = []
+        self.await_read = {}
+
+    def script(self, step, genuine):
+        if self.step != step:
+            return None
+        self.scripted_at.append(len(self.log) - 1)
+        if len(self.scripted_at) > ATTEMPT_LIMIT:
+            self.runaway = True
+            raise _Runaway()
+        self.genuine = list(genuine)
+        return [(6, STEP_STATE[step])]  # a marker; what is sent comes from the delivery script
+
+    def body(self, spec):
+        if spec == GENUINE:
+            return refacc.tlv([(6, STEP_STATE[self.step])] + self.genuine)
+        return refacc.tlv(_scripted_items(spec, self.genuine))
+
+    def expand(self):
+        out = []
+        for u in self.case["delivery"]:
+            body = self.body(u["reply"])
+            if u["u"] == "plain":
+                out.append({"kind": "plain", "chunk": body, "read": False})
+                continue
+            bounds = _record_bounds(body)
+            a = _pos(u.get("from", 0), len(body), bounds)
+            b = max(a, _pos(u.get("to"), len(body), bounds))
+            if u["u"] == "stream":
+                size = max(1, int(u["size"]), -(-(b - a) // 30))
+                pieces = [body[i:i + size] for i in range(a, b, size)] or [b""]
+                for j, piece in enumerate(pieces):
+                    out.append({"kind": "last" if (u.get("end") == "last" and j == len(pieces) - 1) else "data", "chunk": piece, "read": False})
+            else:
+                out.append({"kind": u["u"], "chunk": body[a:b], "read": False})
+        return out[:MAX_ENVELOPES]
+
+    def say(self, h):
+        if self.todo:
+            u = self.todo.pop(0)
+        else:
+            u = dict(self.attempts[-1][-1], read=False, extra=True)
+        self.attempts[-1].append(u)
+        self.await_read[h.iid] = u
+        value = u["chunk"] if u["kind"] == "plain" else refacc.tlv([(12 if u["kind"] == "data" else 13, u["chunk"])])
+        return 0, refacc.tlv([(1, value)])
+
+    def on_request(self, h, op, body, secured):
+        if h.name not in ("setup", "verify") or op != 2:
+            return super().on_request(h, op, body, secured)
+        value = refacc.untlv(body).get(1, b"")
+        if value == b"\x0c\x00" and self.todo is not None and self.live_name == h.name:
+            self.log.append((h.name, "ack"))
+            return self.say(h)
+        self.todo, self.live_name = None, None
+        n = len(self.scripted_at)
+        items = getattr(self, "on_" + h.name)(refacc.untlv(value))
+        if len(self.scripted_at) == n:
+            return 0, refacc.tlv([(1, refacc.tlv(items))])
+        self.todo, self.live_name = self.expand(), h.name
+        self.attempts.append([])
+        return self.say(h)
+
+    def gatt_read(self, h):
+        data = super().gatt_read(h)
+        if h.iid in self.await_read and not self.pending.get(h.iid):
+            self.await_read.pop(h.iid)["read"] = True  # the last PDU of the utterance has been handed to the library
+        return data
+
+    def drop_link(self):
+        super().drop_link()
+        self.todo, self.live_name = None, None
+        self.await_read.clear()
+
+
+class _BlePairingsEnvelopeAcc(_BleAcc):
+    """probe only (never judged): the add / remove pairing reply wrapped in ONE FragmentLast envelope"""
+
+    def on_request(self, h, op, body, secured):
+        status, value = super().on_request(h, op, body, secured)
+        if h.name == "pairings" and op == 2 and secured and status == 0 and value:
+            return 0, refacc.tlv([(1, refacc.tlv([(13, refacc.untlv(value).get(1, b""))]))])
+        return status, value
+
+
+def _logical_reply(said):
+    """the first complete reply among the utterances the library was handed in one attempt -> (shape, envelopes before it, bytes)"""
+    buf, k = b"", 0
+    for u in said:
+        if not u["read"]:
+            return None
+        if u["kind"] == "data":
+            buf += u["chunk"]
+            k += 1
+        elif u["kind"] == "last":
+            return "transfer", k, buf + u["chunk"]
+        else:
+            return ("aborted" if k else "whole"), k, u["chunk"]
+    return None
+
+
+def _show_said(said):
+    out = []
+    for u in said:
+        if u["kind"] == "plain":
+            items = _read_items(u["chunk"]) or []
+            s = "unfragmented reply " + show(items)
+        else:
+            s = f"{'FragmentData' if u['kind'] == 'data' else 'FragmentLast'}({len(u['chunk'])} bytes)"
+        out.append(s + ("" if u["read"] else " (not read)"))
+    return " | ".join(out)
+
+
+def _judge_delivery(case, obs):
+    """-> ([(signature suffix, text)], class of the cell for the distribution)"""
+    step = case["step"]
+    said = next((a for a in obs.get("said") or [] if _logical_reply(a) is not None), None)
+    if said is None:
+        return [], "no-complete-reply"
+    shape, k, raw = _logical_reply(said)
+    items = _read_items(raw)
+    if items is None:
+        return [], shape + ":not-tlv"  # a transfer that ends in the middle of a record: not a reply the property speaks about
+    types = [t for t, _ in items]
+    if 12 in types or 13 in types or types.count(6) > 1 or types.count(7) > 1:
+        return [], shape + ":ambiguous"
+    d = dict(items)
+    state, code = d.get(6), d.get(7)
+    exact = case["level"] == "step"
+    want = expected_outcome(STEP_STATE[step], state, code, kind="step" if exact else "pairing")
+    if want is None:
+        return [], shape + ":clean"
+    what = "a foreign step number" if (state is not None and state != STEP_STATE[step]) else "an error code"
+    kind = "wrong-state" if what.startswith("a foreign") else "error-code"
+    heard = [u for u in said if u["read"]]
+    where = (f"ble-delivery {case['op']}: the accessory delivers its answer to {step} as [{_show_said(heard)}] - read by the harness: {shape} reply {show(items)}"
+             + (f" after {k} FragmentData envelope(s)" if k else "") + f" (the step was reached {obs['scripted']} time(s))")
+    out, bad = obs["out"], []
+    if obs.get("runaway") or out == "timeout":
+        bad.append(("no-failure", f"{where}: the operation neither failed nor ended - {obs['requests']} requests sent, outcome {out}; documented outcome is {want}"))
+    elif out.startswith("exc"):
+        bad.append((out.split()[1], f"{where}: raised non-library {out.split()[1]}; documented outcome is {want}"))
+    elif out.startswith("ok"):
+        bad.append(("completed/" + kind, f"{where}: the call returned normally ({out[3:][:60]}) - no exception although the accessory's answer was {what}; documented outcome is {want}"))
+    elif exact and out != want:
+        bad.append((kind, f"{where}: -> {out}, documented outcome is {want}"))
+    if obs.get("keys"):
+        bad.append(("keys-installed", f"{where}: session keys / pairing are in place afterwards ({obs['keys']}), outcome {out}"))
+    if obs.get("after"):
+        bad.append(("carried-on", f"{where}: afterwards the controller went on to send {obs['after'][:4]} as if the procedure had succeeded (outcome {out})"))
+    return bad, shape + ":" + kind
+
+
+def _delivery_catalogue(e, e2):
+    """deliveries of the error / wrong-step reply `e` (e2: another one) -> [(shape name, delivery)]"""
+    g = GENUINE
+
+    def D(r, a=0, b=None):
+        return {"u": "data", "reply": r, "from": a, "to": b}
+
+    def L(r, a=0, b=None):
+        return {"u": "last", "reply": r, "from": a, "to": b}
+
+    def S(r, size, end, a=0, b=None):
+        return {"u": "stream", "reply": r, "size": size, "end": end, "from": a, "to": b}
+
+    def Pl(r):
+        return {"u": "plain", "reply": r}
+    cat = [("whole", [Pl(e)]), ("transfer/last-only", [L(e)]), ("transfer/data+empty-last", [D(e), L(e, None)])]
+    # the reply as a complete transfer: every kind of split
+    for cut in (1, 2, 3, 5, "h", -1, -2, "b1", "b2", "b-1"):
+        cat.append(("transfer/two", [D(e, 0, cut), L(e, cut)]))
+    cat.append(("transfer/three", [D(e, 0, "b1"), D(e, "b1", "b2"), L(e, "b2")]))
+    cat.append(("transfer/three", [D(e, 0, 1), D(e, 1, "h"), L(e, "h")]))
+    for size in (1, 2, 7, 64, 200, 255, 256):
+        cat.append(("transfer/stream", [S(e, size, "last")]))
+        cat.append(("transfer/stream+empty-last", [S(e, size, "data"), L(e, None)]))
+    cat.append(("transfer/empty-chunks", [D(e, 0, 0), D(e, 0, "h"), D(e, "h", "h"), L(e, "h")]))
+    # a transfer (of the genuine reply, of this or of another error reply) ABORTED after k envelopes by the unfragmented reply;
+    # the chunks handed over so far are whole records (b<k>, everything) or end inside one
+    for pre in ([D(g)], [D(g, 0, "b1")], [D(g, 0, "b1"), D(g, "b1")], [D(g, 0, "b2")], [D(g, 0, "b-1")], [D(g, 0, "h")], [D(g, 0, 1)], [D(g, 0, 2), D(g, 2, 5)],
+                [S(g, 200, "data")], [S(g, 64, "data")], [S(g, 255, "data")], [S(g, 100, "data", 0, "b-1")], [D(g, 0, 0)], [D(g, 0, 0), D(g)],
+                [D(e2)], [D(e2, 0, "h")], [D(e)], [D(e, 0, "b1")], [D(e, 0, 1)]):
+        cat.append(("aborted", pre + [Pl(e)]))
+    # ... by an accessory that would carry on with the transfer if it were asked to
+    cat.append(("aborted+tail", [D(g, 0, "b1"), Pl(e), D(g, "b1", "b-1"), L(g, "b-1")]))
+    cat.append(("aborted+tail", [D(g), Pl(e), L(g, None)]))
+    cat.append(("aborted+tail", [S(g, 200, "data"), Pl(e), L(g, None)]))
+    cat.append(("whole+tail", [Pl(e), L(g)]))
+    cat.append(("whole+tail", [Pl(e), D(g), L(g, None)]))
+    cat.append(("transfer+tail", [D(e, 0, "h"), L(e, "h"), L(g)]))
+    return cat
+
+
+def _random_delivery(rng, e, e2):
+    g = GENUINE
+    cuts = [0, 1, 2, 3, 5, 17, 64, 200, 255, 256, 257, "h", -1, -2, -3, "b1", "b2", "b3", "b-1", "b-2", None]
+    out = []
+    who = rng.choice([g, g, e, e2])
+    pos = 0
+    for _ in range(rng.randrange(0, 5)):
+        if rng.random() < 0.25:
+            out.append({"u": "stream", "reply": who, "size": rng.choice([1, 3, 20, 64, 100, 200, 255]), "end": "data", "from": pos, "to": (nxt := rng.choice(cuts))})
+        else:
+            out.append({"u": "data", "reply": who, "from": pos, "to": (nxt := rng.choice(cuts))})
+        pos = nxt
+        if pos is None:
+            break
+    r = rng.random()
+    if r < 0.55:
+        out.append({"u": "plain", "reply": e})
+    elif who == g:
+        out.append({"u": "plain", "reply": e})
+    else:
+        out.append({"u": "last", "reply": who, "from": pos, "to": None})
+    if rng.random() < 0.3:
+        out.append({"u": "last", "reply": g, "from": rng.choice(cuts), "to": None})
+    return out
+
+
+def ble_delivery_grid(ctx: Ctx, rng):
+    from harness import simnet
+    loop = simnet.VLoop()
+    asyncio.set_event_loop(loop)
+    cases = []
+    shapes = [{"pdu_split": 0}, {"pdu_split": 0}, {"pdu_split": 5}, {"pdu_split": 3, "mtu": 23}]
+    drivers = [("pair_verify", "verifyM2", {}), ("pair_verify", "verifyM4", {}), ("pair_verify", "verifyM2", {"resume": True}), ("pair_verify", "verifyM2", {"resume": True, "honour_resume": False}),
+               ("pair_verify", "verifyM4", {"resume": True, "honour_resume": False}), ("start_pairing", "setupM2", {"ff": 0}), ("start_pairing", "setupM2", {"ff": 1}),
+               ("finish_pairing", "setupM4", {}), ("finish_pairing", "setupM6", {})]
+
+    def specs(step):
+        full = _cells(step, step not in ("verifyM4",), True)
+        light = _cells(step, False, "light")
+        return light, full
+
+    def add(op, level, step, shape, delivery, **kw):
+        cases.append(dict({"stream": "ble-delivery", "op": op, "level": level, "step": step, "seed": rng.randrange(1 << 30), "shape": shape, "delivery": delivery,
+                           "state": None, "code": None}, **shapes[len(cases) % len(shapes)], **kw))
+    per_shape = ctx.budget(2, 12)
+    for op, step, kw in drivers:
+        light, full = specs(step)
+        n = 0
+        for i, (name, _d) in enumerate(_delivery_catalogue(light[0], light[1])):
+            for j in range(per_shape):
+                n += 1
+                e = (light if j % 2 == 0 else full)[(n * 7 + i) % len(light if j % 2 == 0 else full)]
+                e2 = light[(n + 3) % len(light)]
+                add(op, "step", step, name, _delivery_catalogue(e, e2)[i][1], **kw)
+    # the public operations that run pair-verify first: a library error demanded
+    for op in BLE_PUBLIC:
+        for step in ("verifyM2", "verifyM4"):
+            light, _full = specs(step)
+            cat = _delivery_catalogue(light[0], light[1])
+            picks = [i for i, (name, _d) in enumerate(cat) if name.startswith("aborted")][:: ctx.budget(4, 1)] + [i for i, (name, _d) in enumerate(cat) if name.startswith("transfer")][:: ctx.budget(9, 1)]
+            for n, i in enumerate(picks):
+                e, e2 = light[(n + len(cases)) % len(light)], light[(n + 5) % len(light)]
+                add(op, "op", step, cat[i][0], _delivery_catalogue(e, e2)[i][1])
+    # random deliveries
+    for _ in range(ctx.budget(200, 6000)):
+        op, step, kw = rng.choice(drivers)
+        light, full = specs(step)
+        e, e2 = rng.choice(light + full), rng.choice(light)
+        add(op, "step", step, "random", _random_delivery(rng, e, e2), **kw)
+    # genuine replies delivered in fragments (no claim: the operations must be able to succeed)
+    for op, step, kw in drivers:
+        for d in ([{"u": "stream", "reply": GENUINE, "size": 100, "end": "last", "from": 0, "to": None}], [{"u": "data", "reply": GENUINE, "from": 0, "to": None}, {"u": "last", "reply": GENUINE, "from": None, "to": None}]):
+            add(op, "step", step, "genuine-transfer", d, **kw)
+    n_judged = 0
+    for case in cases:
+        try:
+            obs = loop.run_until_complete(_ble_cell(case))
+        except _Runaway:
+            obs = {"out": "runaway", "scripted": 1, "requests": REQUEST_LIMIT, "runaway": True, "after": [], "keys": None, "said": []}
+        except Exception as e:  # noqa: BLE001 - an exception that escaped the cell's own guards: constructing the pairing / discovery objects failed
+            obs = {"out": "scaffold " + type(e).__name__, "scripted": 0, "requests": 0, "runaway": False, "after": [], "keys": None, "said": []}
+            ctx.dist[f"ble-delivery:scaffold:{type(e).__name__}"] += 1
+        pend = [t for t in asyncio.all_tasks(loop) if not t.done()]
+        for t in pend:
+            t.cancel()
+        if pend:
+            loop.run_until_complete(asyncio.gather(*pend, return_exceptions=True))
+        bad, cls = _judge_delivery(case, obs)
+        ctx.evaluations += 1
+        ctx.nontrivial.add(("ble-delivery", case["op"], case["step"], case.get("resume"), case.get("honour_resume"), case.get("ff"), case.get("pdu_split"), case.get("mtu"), str(case["delivery"])))
+        ctx.dist[f"ble-delivery:{case['op']}:{case['step']}:{case['shape'].split('/')[0]}:{cls}:{obs['out']}"] += 1
+        n_judged += cls.endswith(("error-code", "wrong-state"))
+        if case["shape"] == "genuine-transfer" and not obs["out"].startswith("ok"):
+            ctx.notes.append(f"ble-delivery {case['op']} {case['step']}: the genuine reply delivered as a complete fragmented transfer ended with {obs['out']} (the property makes no claim)")
+        for sig, text in bad:
+            ctx.violation(f"ble-delivery/{case['op']}/{case['step']}/{cls.split(':')[0]}/{sig}", text, case)
+    # probe, recorded only (outside the property's reply shapes, see ASSUMPTIONS): the six-byte add / remove pairing reply inside a FragmentLast envelope
+    probe = []
+    for op in ("remove_pairing", "add_pairing"):
+        c = {"stream": "ble", "op": op, "level": "op", "step": "pairingsM2", "state": "02", "code": "02", "fields": False, "order": 0, "pairings_envelope": True, "seed": 1}
+        try:
+            probe.append(f"{op} -> {loop.run_until_complete(_ble_cell(c))['out']}")
+        except Exception as e:  # noqa: BLE001
+            probe.append(f"{op} -> harness {type(e).__name__}")
+        ctx.dist[f"ble-delivery:probe:pairings-envelope:{probe[-1]}"] += 1
+    ctx.notes.append("BLE reply delivery, probe (not judged): add / remove pairing M2 [State=02, Error=02] delivered inside ONE FragmentLast envelope - the library does not reassemble pairings replies and reads "
+                     "'no State, no Error': " + "; ".join(probe))
+    asyncio.set_event_loop(None)
+    loop.close()
+    ctx.sample(cases[40])
+    ctx.notes.append(f"BLE reply delivery: {len(cases)} cells (entry point x step x delivery of the reply: unfragmented, complete FragmentData.. FragmentLast transfers under every kind of split, transfers "
+                     f"aborted after k envelopes by an unfragmented error / wrong-step reply, Error items inside fragments, replies followed by further fragments); {n_judged} of them ended - by the harness's own "
+                     "reading of what the library was handed - in an error / wrong-step reply and were judged")
 
 
 # -------------------------------------------------------------------------------------------------------------- CoAP
@@ -1265,8 +1658,13 @@ class _IpAcc(_Peer):
 
     def send(self, t, body, ctype="application/pairing+tlv8", status=(200, "OK")):
         c = self.conns[t]
+        wire = self.case.get("wire") or {}  # how the bytes travel: {'chunked': n} = chunked transfer coding with chunks of n bytes, {'split': n} = TCP segments of n bytes
         if status[0] == 204:
             data = b"HTTP/1.1 204 No Content\r\n\r\n"
+        elif wire.get("chunked") and body:
+            n = int(wire["chunked"])
+            coded = b"".join(b"%x\r\n" % len(body[i:i + n]) + body[i:i + n] + b"\r\n" for i in range(0, len(body), n)) + b"0\r\n\r\n"
+            data = (f"HTTP/1.1 {status[0]} {status[1]}\r\n" + (f"Content-Type: {ctype}\r\n" if ctype else "") + "Transfer-Encoding: chunked\r\n\r\n").encode() + coded
         else:
             data = (f"HTTP/1.1 {status[0]} {status[1]}\r\n" + (f"Content-Type: {ctype}\r\n" if ctype else "") + f"Content-Length: {len(body)}\r\n\r\n").encode() + body
         if c["keys"]:
@@ -1277,6 +1675,11 @@ class _IpAcc(_Peer):
                 out += ln + ChaCha20Poly1305(c["keys"][1]).encrypt(struct.pack("<LQ", 0, c["w"]), blk, ln)
                 c["w"] += 1
             data = out
+        if wire.get("split"):
+            n = max(int(wire["split"]), -(-len(data) // 400))
+            for i in range(0, len(data), n):
+                t.feed(data[i:i + n])
+            return
         t.feed(data)
 
     def handle(self, t, method, target, body):
@@ -1320,6 +1723,7 @@ IP_PUBLIC = {
     "pairing.identify": lambda p, k: p.identify(),
 }
 IP_PAIRINGS_OPS = ("pairing.add_pairing", "pairing.add_pairing_admin", "pairing.remove_pairing", "pairing.remove_own_pairing")
+IP_WIRES = [{"split": 1}, {"chunked": 1}, {"split": 7}, {"chunked": 5, "split": 3}, {"chunked": 64}, {"chunked": 2, "split": 1}]
 
 
 async def _ip_cell(case):
@@ -1417,14 +1821,526 @@ def ip_transport_grid(ctx: Ctx, rng):
     real = [dict(c, srp="real") for c in cases if c["step"].startswith("setup")]
     rng.shuffle(real)
     cases += real[:ctx.budget(3, 60)]
+    # the same replies as they may travel: chunked transfer coding, TCP segments down to one byte (every reply of the cell, the genuine ones too)
+    cases += [dict(c, wire=IP_WIRES[i % len(IP_WIRES)], seed=rng.randrange(1 << 30)) for i, c in enumerate(cases[::ctx.budget(3, 1)])]
     for op in ["discovery.start_pairing", "discovery.finish_pairing", "connect_once"] + list(IP_PUBLIC):
         cases.append({"stream": "ip", "op": op, "level": "step", "step": None, "seed": rng.randrange(1 << 30)})
+        cases.append({"stream": "ip", "op": op, "level": "step", "step": None, "seed": rng.randrange(1 << 30), "wire": IP_WIRES[len(cases) % len(IP_WIRES)]})
     _run_cells(ctx, loop, cases, _ip_cell)
     asyncio.set_event_loop(None)
     loop.close()
     ctx.sample(cases[7])
     ctx.notes.append(f"IP transport: {len(cases)} cells (entry point x step x reply shape x HTTP status / Content-Type of the error reply) through the real IpDiscovery, "
                      "SecureHomeKitConnection._connect_once, the connector task and IpPairing's operations over harness/simnet against an independent accessory that repeats the scripted reply on every attempt")
+
+
+# =====================================================================================================================
+# top level (stream top): the application's entry points - aiohomekit.Controller entered with `async with` (which registers
+# the IP, CoAP and BLE backends), load_pairing / load_data, then Controller.remove_pairing(alias) and the operations of the
+# pairing object the controller hands out (controller.aliases[alias]: add / remove / list pairings) - against the scripted
+# accessory of the transport, which answers ONE step (pair-verify M2 / M4, add / remove pairing M2) with the scripted error /
+# foreign step number on every attempt and THEN stays up, closes the link or drops it at the very instant the reply has been
+# handed over.  Only zeroconf (browser / cache), the BLE scanner + GATT link, aiocoap's Context and TCP are replaced; time is
+# virtual.  Oracle: an operation whose scripted reply was handed to the library never returns normally.
+# =====================================================================================================================
+ALIAS = "alias"
+TOP_THEN = {"ip": ("stay", "close", "drop"), "ble": ("stay", "close", "drop", "drop-quiet"), "coap": ("stay",)}
+TOP_OPS = {
+    "controller.remove_pairing": lambda c, p, k: c.remove_pairing(ALIAS),
+    "pairing.remove_own_pairing": lambda c, p, k: p.remove_pairing(p.pairing_data["iOSPairingId"]),
+    "pairing.remove_pairing": lambda c, p, k: p.remove_pairing("other-ctl"),
+    "pairing.add_pairing": lambda c, p, k: p.add_pairing("other-ctl", k, "User"),
+    "pairing.add_pairing_admin": lambda c, p, k: p.add_pairing("other-ctl", k, "Admin"),
+    "pairing.list_pairings": lambda c, p, k: p.list_pairings(),
+}
+TOP_COAP_OPS = ("controller.remove_pairing", "pairing.remove_own_pairing", "pairing.remove_pairing", "pairing.list_pairings")
+# the command line application (aiohomekit.__main__, `aiohomekitctl unpair / remove_pairing`): its command functions build the Controller
+# themselves from a pairing file and a characteristic cache file; True = done, False / SystemExit / an exception = failed
+TOP_CLI_OPS = {"cli.unpair": ("unpair", None), "cli.remove_pairing": ("remove_pairing", "other-ctl"), "cli.remove_own_pairing": ("remove_pairing", "own"), "cli.pair": ("pair", None)}
+# pairing a NEW accessory from the top: Controller.async_find -> discovery.async_start_pairing -> finish_pairing (BLE: the accessory is found through the scanner)
+TOP_PAIR_OPS = ("controller.pair", "cli.pair")
+
+
+async def _top_pair(controller, device_id):
+    discovery = await controller.async_find(device_id)
+    finish = await discovery.async_start_pairing(ALIAS)
+    return await finish(PIN)
+
+
+def _top_browser_cls():
+    from zeroconf import SignalRegistrationInterface
+
+    class BrowserStub:
+        types = ["_hap._tcp.local.", "_hap._udp.local."]
+
+        def __init__(self, *a, **kw):
+            self._handlers = []
+            self.service_state_changed = SignalRegistrationInterface(self._handlers)
+            if a and hasattr(a[0], "listeners"):
+                a[0].listeners.append(self)  # as zeroconf registers a browser with the instance it browses on
+
+        async def async_cancel(self):
+            return None
+    return BrowserStub
+
+
+class _TopZc:
+    """stands in for zeroconf.Zeroconf: an empty record cache and the list of registered browsers - the network is silent"""
+
+    def __init__(self):
+        from zeroconf import DNSCache
+        self.cache = DNSCache()
+        self.listeners = []
+
+    async def async_wait_for_start(self):
+        return None
+
+
+def _top_azc_cls():
+    """stands in for zeroconf.asyncio.AsyncZeroconf where the application creates it itself (aiohomekit.__main__)"""
+    class FakeAsyncZeroconf:
+        def __init__(self, *a, **kw):
+            self.zeroconf = _TopZc()
+
+        async def async_register_service(self, *a, **kw):
+            return None
+
+        async def async_close(self):
+            return None
+
+        async def __aenter__(self):
+            return self
+
+        async def __aexit__(self, *a):
+            return None
+    return FakeAsyncZeroconf
+
+
+def _top_zeroconf(browser_cls):
+    """the AsyncZeroconf instance an application hands to Controller(async_zeroconf_instance=...), with one browser for both HAP service types"""
+    azc = _top_azc_cls()()
+    browser_cls(azc.zeroconf)
+    return azc
+
+
+class _TopScanner:
+    """the BLE scanner: starts, stops, and reports what the harness tells it to (`auto`: an advertisement it sees by itself
+    0.2 s after it was started)"""
+    current = None
+    auto = None
+
+    def __init__(self, detection_callback=None, **kw):
+        self.detection_callback = detection_callback
+        self.discovered_devices_and_advertisement_data = {}
+        type(self).current = self
+
+    async def start(self):
+        if type(self).auto is not None:
+            asyncio.get_running_loop().call_later(0.2, self.detection_callback, *type(self).auto)
+        return None
+
+    async def stop(self):
+        return None
+
+
+def _top_advertisement(acc_id, gsn=1, cn=1, sf=0):
+    """the accessory's regular HAP-BLE advertisement as the scanner reports it (sf = 1: not paired yet)"""
+    from types import SimpleNamespace
+    data = bytes([0x06, 0x31, sf]) + bytes.fromhex(acc_id.replace(":", "")) + struct.pack("<HHBB", 5, gsn, cn, 2) + b"\x01\x02\x03\x04"
+    return SimpleNamespace(address=_Radio.address, name="acc", details={}), SimpleNamespace(manufacturer_data={76: data}, rssi=-50, local_name="acc", service_uuids=[], service_data={})
+
+
+class _BleTopAcc(_BleAcc):
+    """_BleAcc that notes when the last PDU of a scripted reply has been read"""
+
+    def __init__(self, case, rb, names):
+        super().__init__(case, rb, names)
+        self.marked = {}
+        self.handed = 0  # scripted replies completely read by the library
+        self.just_handed = False
+
+    def gatt_write(self, h, data):
+        n = len(self.scripted_at)
+        super().gatt_write(h, data)
+        if len(self.scripted_at) > n:
+            self.marked[h.iid] = True
+
+    def gatt_read(self, h):
+        data = super().gatt_read(h)
+        if self.marked.get(h.iid) and not self.pending.get(h.iid):
+            del self.marked[h.iid]
+            self.handed += 1
+            self.just_handed = True
+        return data
+
+    def drop_link(self):
+        super().drop_link()
+        self.partial.clear()
+        self.pending.clear()
+        self.vq.clear()
+        self.marked.clear()
+
+
+class _TopRadio(_Radio):
+    """a GATT link that the accessory may close (the stack reports it a moment later) or that drops at the instant a reply
+    has been read (is_connected is False when the read returns; the stack's callback follows, or - drop-quiet - never comes)"""
+
+    def __init__(self, acc, mtu, then, on_disconnect):
+        super().__init__(acc, mtu)
+        self.then, self.on_disconnect = then, on_disconnect
+
+    def _check(self):
+        from bleak.exc import BleakError
+        if not self.is_connected:
+            raise BleakError("Not connected")
+
+    def _down(self, report):
+        if not self.is_connected:
+            return
+        self.is_connected = False
+        self.acc.drop_link()
+        if report and self.on_disconnect is not None:
+            self.on_disconnect(self)
+
+    async def write_gatt_char(self, handle, data, response=None):
+        self._check()
+        self.acc.gatt_write(handle, bytes(data))
+
+    async def read_gatt_char(self, handle):
+        self._check()
+        self.acc.just_handed = False
+        data = self.acc.gatt_read(handle)
+        if self.acc.just_handed and self.then != "stay":
+            loop = asyncio.get_running_loop()
+            if self.then == "close":
+                loop.call_soon(self._down, True)
+            else:
+                self.is_connected = False
+                self.acc.drop_link()
+                if self.then == "drop" and self.on_disconnect is not None:
+                    loop.call_soon(self.on_disconnect, self)
+        return data
+
+    async def disconnect(self):
+        self._down(False)
+
+
+class _IpTopAcc(_IpAcc):
+    """_IpAcc that closes (FIN) or resets the TCP connection right behind a scripted reply"""
+
+    def __init__(self, case, rb, net, loop):
+        super().__init__(case, rb, net, loop)
+        self.handed = 0
+        self.sending_scripted = False
+
+    def handle(self, t, method, target, body):
+        before = len(self.scripted_at)
+        self.fed = False
+        super().handle(t, method, target, body)
+        if len(self.scripted_at) > before and self.fed:
+            self.handed += 1
+            then = self.case.get("then", "stay")
+            if then == "close":
+                t.peer_close()
+            elif then == "drop":
+                t.peer_reset()
+
+    def send(self, t, body, ctype="application/pairing+tlv8", status=(200, "OK")):
+        self.fed = not (t.closed or t.closing)
+        super().send(t, body, ctype, status)
+
+
+class _CoapTopAcc(_CoapAcc):
+    def __init__(self, case, rb):
+        super().__init__(case, rb)
+        self.handed = 0
+
+    def respond(self, msg):
+        n = len(self.scripted_at)
+        r = super().respond(msg)
+        self.handed += len(self.scripted_at) - n
+        return r
+
+
+async def _top_cli(st, case, acc, pd, browser, db):
+    """one command of the command line application, run on a pairing file and a characteristic cache file in a scratch directory
+    -> (outcome, does the pairing file still list the alias, what the command printed)"""
+    import contextlib
+    import io
+    import json
+    import os
+    import shutil
+    import tempfile
+    from argparse import Namespace
+    import aiohomekit.__main__ as cli
+    fn_name, ident = TOP_CLI_OPS[case["op"]]
+    d = tempfile.mkdtemp(prefix="c04cli")
+    try:
+        fn = os.path.join(d, "pairing.json")
+        with open(fn, "w") as f:
+            json.dump({} if fn_name == "pair" else {ALIAS: pd}, f)
+        with open(os.path.join(d, "charmap.json"), "w") as f:
+            json.dump({"pairings": {pd["AccessoryPairingID"]: {"config_num": 1, "accessories": db["db"], "broadcast_key": None, "state_num": 1}}}, f)
+        st.enter_context(mock.patch.object(cli, "AsyncZeroconf", _top_azc_cls()))
+        st.enter_context(mock.patch.object(cli, "AsyncServiceBrowser", browser))
+        _TopScanner.auto = _top_advertisement(acc.ident.acc_id.decode(), sf=1 if fn_name == "pair" else 0) if case["transport"] == "ble" else None
+        args = Namespace(file=fn, alias=ALIAS, controllerPairingId=pd["iOSPairingId"] if ident == "own" else ident, device=acc.ident.acc_id.decode(), pin=PIN)
+        buf = io.StringIO()
+        try:
+            with contextlib.redirect_stdout(buf):
+                try:
+                    out = await _guard(getattr(cli, fn_name)(args))
+                except SystemExit as e:
+                    out = "ok exit-0" if e.code in (0, None) else f"err cli-exit({e.code})"
+        finally:
+            _TopScanner.auto = None
+        if out == "ok False":
+            out = "err cli-returned-False"  # the command's way of reporting a failure (exit status 1)
+        try:
+            with open(fn) as f:
+                listed = ALIAS in json.load(f)
+        except Exception:  # noqa: BLE001
+            listed = False
+        return out, listed, buf.getvalue().strip()[:200]
+    finally:
+        shutil.rmtree(d, ignore_errors=True)
+
+
+async def _top_cell(case):
+    """one top-level cell, a pure function of the case dict"""
+    import contextlib
+    import json
+    import os
+    import random as _r
+    import tempfile
+    import aiohomekit.controller.coap.connection as coapc
+    from harness import simnet
+    from aiohomekit import Controller
+    from aiohomekit.characteristic_cache import CharacteristicCacheMemory
+    rng = _r.Random(case.get("seed", 0))
+    rb = lambda n: bytes(rng.randrange(256) for _ in range(n))  # noqa: E731
+    loop = asyncio.get_running_loop()
+    tr, op, then = case["transport"], case["op"], case.get("then", "stay")
+    db = _ble_db()
+    net = simnet.Net(loop)
+    radios = []
+    if tr == "ip":
+        acc = _IpTopAcc(case, rb, net, loop)
+        pd = acc.ident.pairing_data()
+    elif tr == "coap":
+        acc = _CoapTopAcc(case, rb)
+        pd = dict(acc.ident.pairing_data(hosts=("fd00::1",), port=5683, connection="CoAP"))
+    else:
+        acc = _BleTopAcc(case, rb, db["names"])
+        pd = dict(acc.ident.pairing_data(connection="BLE"), AccessoryAddress=_Radio.address)
+        for k in ("AccessoryIP", "AccessoryIPs", "AccessoryPort"):
+            pd.pop(k, None)
+    acc_id = acc.ident.acc_id.decode()
+
+    async def establish(device, name, disconnected_callback, **kw):
+        await asyncio.sleep(0.3)
+        radios.append(_TopRadio(acc, case.get("mtu", 512), then, disconnected_callback))
+        return radios[-1]
+
+    class FakeContext:
+        @staticmethod
+        async def create_client_context(*a, **k):
+            return _CoapContext(acc)
+
+        @staticmethod
+        async def create_server_context(*a, **k):
+            return _CoapContext(acc)
+    browser = _top_browser_cls()
+    cache = CharacteristicCacheMemory()
+    # what an earlier life of the application left in the characteristic cache
+    cache.async_create_or_update_map(pd["AccessoryPairingID"], 1, db["db"], None, 1)
+    obs = {"keys": None}
+    out, alias_after, pairing = "scaffold", None, None
+    with contextlib.ExitStack() as st:
+        st.enter_context(mock.patch("aiohomekit.zeroconf.AsyncServiceBrowser", browser))
+        # an installation with Bluetooth enabled (aiohomekit.const decides this once, at import, from the environment: bleak already imported / AIOHOMEKIT_TRANSPORT_BLE set)
+        st.enter_context(mock.patch("aiohomekit.controller.controller.BLE_TRANSPORT_SUPPORTED", True))
+        st.enter_context(mock.patch("aiohomekit.controller.ble.controller.BleakScanner", _TopScanner))
+        st.enter_context(mock.patch("aiohomekit.controller.ble.pairing.establish_connection", establish))
+        st.enter_context(mock.patch("aiohomekit.controller.ble.discovery.establish_connection", establish))
+        st.enter_context(mock.patch.object(coapc, "Context", FakeContext))
+        st.enter_context(net.patched())
+        st.enter_context(mock.patch.object(P, "SrpClient", FakeSrp))
+        if op in TOP_CLI_OPS:
+            out, alias_after, printed = await _top_cli(st, case, acc, pd, browser, db)
+            own = ("setup", "features") if op in TOP_PAIR_OPS else (("pairings", "verify") if case.get("step") == "pairingsM2" else ("verify",))
+            obs.update(out=out, scripted=acc.handed, reached=len(acc.scripted_at), requests=acc.requests, runaway=acc.runaway, completed=list(acc.completed), alias_after=None, file_alias=alias_after,
+                       printed=printed, after=_after(acc, own))
+            return obs
+        controller = Controller(async_zeroconf_instance=_top_zeroconf(browser), char_cache=cache)
+        try:
+            async with controller:
+                if op == "controller.pair":
+                    _TopScanner.current.detection_callback(*_top_advertisement(acc_id, sf=1))
+                    out = await _guard(_top_pair(controller, acc_id))
+                    if ALIAS in controller.aliases or any(ALIAS in t.pairings or ALIAS in t.aliases for t in controller.transports.values()):
+                        obs["keys"] = "the controller holds a pairing for the alias"
+                    for t in controller.transports.values():
+                        for p_ in list(t.pairings.values()):
+                            try:
+                                await p_.shutdown()
+                            except Exception:  # noqa: BLE001
+                                pass
+                    obs.update(out=out, scripted=acc.handed, reached=len(acc.scripted_at), requests=acc.requests, runaway=acc.runaway, after=_after(acc, ("setup", "features")),
+                               completed=list(acc.completed), alias_after=None)
+                    return obs
+                how = case.get("load", "load_pairing")
+                if tr == "ble" and how != "load-before-adv":
+                    _TopScanner.current.detection_callback(*_top_advertisement(acc_id))
+                if how == "load_data":
+                    fd, fn = tempfile.mkstemp(suffix=".json")
+                    try:
+                        with os.fdopen(fd, "w") as f:
+                            json.dump({ALIAS: pd}, f)
+                        controller.load_data(fn)
+                    finally:
+                        os.unlink(fn)
+                else:
+                    controller.load_pairing(ALIAS, dict(pd))
+                if tr == "ble" and how == "load-before-adv":
+                    _TopScanner.current.detection_callback(*_top_advertisement(acc_id))
+                pairing = controller.aliases.get(ALIAS)
+                if pairing is None:
+                    out = "scaffold no-pairing"
+                else:
+                    out = await _guard(TOP_OPS[op](controller, pairing, acc.ident.ios_ltpk.hex()))
+                    alias_after = ALIAS in controller.aliases
+                    if case.get("step") in ("verifyM2", "verifyM4") and pairing.is_connected:
+                        obs["keys"] = f"{type(pairing).__name__}.is_connected is True"
+                net.connect_outcomes = ["refused"] * 10000
+                if pairing is not None:
+                    try:
+                        await pairing.shutdown()
+                    except Exception:  # noqa: BLE001
+                        pass
+        except _Runaway:
+            raise
+        except Exception as e:  # noqa: BLE001
+            if out == "scaffold":
+                out = "scaffold " + type(e).__name__
+    step = case.get("step") or ""
+    own = ("pairings", "verify") if step == "pairingsM2" else ("verify",)
+    obs.update(out=out, scripted=acc.handed, reached=len(acc.scripted_at), requests=acc.requests, runaway=acc.runaway, after=_after(acc, own), completed=list(acc.completed),
+               alias_after=alias_after)
+    return obs
+
+
+NOT_A_LIBRARY_ERROR = ("AttributeError", "TypeError", "KeyError", "IndexError", "NameError", "UnboundLocalError", "AssertionError")
+
+
+def _judge_top(case, obs):
+    """the property's verdict on one top-level cell: as _judge for an operation (a library error, never a normal return, no
+    session, nothing sent as if verified) - when the accessory itself takes the link away behind its reply only the core is
+    demanded: the call does not return normally (the class of the failure is recorded, not judged)"""
+    exact = case["transport"] == "ip" and "add" in case["op"] and case.get("step") == "pairingsM2" and case.get("then", "stay") == "stay"
+    level = "step" if (case["op"] == "controller.pair" and case.get("then", "stay") == "stay") else ("add" if exact else "op")
+    bad = _judge(dict(case, stream=f"top {case['transport']}", level=level), obs)
+    if case["op"] == "cli.pair" and case.get("step") and obs.get("scripted") and obs.get("file_alias"):
+        bad.append(("pairing-file-claims", f"top {case['transport']} cli.pair: accessory answers {case.get('step')} with state={case.get('state')} code={case.get('code')}: afterwards the pairing file lists the alias "
+                    f"(outcome {obs['out']}, printed {obs.get('printed')!r})"))
+    if case.get("then", "stay") != "stay":
+        bad = [(sig, text) for sig, text in bad if sig.startswith(("completed", "no-failure", "keys-installed", "carried-on"))]
+        # ... and the failure is "a library error" (the property's words): whatever the accessory does behind its reply, an
+        # exception class that only a programming error produces is not one.  (Found on the unchanged tree: post_tlv called
+        # close() on a transport the accessory had already taken away and raised AttributeError - repaired in /repo.)
+        out = obs.get("out", "")
+        if obs.get("scripted") and out.startswith("exc ") and out[4:].split(":")[0].split(" ")[0] in NOT_A_LIBRARY_ERROR:
+            bad.append(("non-library-error", f"top {case['transport']} {case['op']}: accessory answers {case.get('step')} with state={case.get('state')} code={case.get('code')} "
+                        f"(http {case.get('http')}) and takes the link away: the call failed with {out[4:]} - not a library error"))
+    if case["op"] == "cli.unpair" and obs.get("scripted") and obs.get("file_alias") is False and not obs["out"].startswith("scaffold"):
+        bad.append(("pairing-file-forgot", f"top {case['transport']} cli.unpair: accessory answers {case.get('step')} with state={case.get('state')} code={case.get('code')} ({obs['scripted']} such repl(ies) handed to the "
+                    f"library): afterwards the pairing file no longer lists the alias (outcome {obs['out']}, printed {obs.get('printed')!r}) - the application's records claim the accessory was unpaired"))
+    then = {"stay": "keeps the link up", "close": "closes the link behind the reply", "drop": "drops the link at the instant the reply has been handed over",
+            "drop-quiet": "drops the link at the instant the reply has been handed over (the stack never reports it)"}[case.get("then", "stay")]
+    return [(sig, f"{text} [top level: aiohomekit.Controller with its backends, pairing loaded through {case.get('load', 'load_pairing')}; the accessory {then}]") for sig, text in bad]
+
+
+def top_grid(ctx: Ctx, rng):
+    from harness import simnet
+    loop = simnet.VLoop()
+    asyncio.set_event_loop(loop)
+    cases = []
+    https = [None, [400, "application/pairing+tlv8"], [470, None], [200, "application/hap+json"]]
+    loads = {"ip": ("load_pairing", "load_data"), "coap": ("load_pairing", "load_data"), "ble": ("load_pairing", "load_data", "load-before-adv")}
+    for tr in ("ip", "ble", "coap"):
+        ops = (TOP_COAP_OPS if tr == "coap" else tuple(TOP_OPS)) + tuple(o for o in TOP_CLI_OPS if o not in TOP_PAIR_OPS)
+        steps = ("verifyM2", "verifyM4") if tr == "coap" else ("verifyM2", "verifyM4", "pairingsM2")
+        for op in ops:
+            for step in steps:
+                if step == "pairingsM2" and "list" in op:
+                    continue  # the property speaks of add- and remove-pairing requests (a list-pairings reply is not its business)
+                shapes = _cells(step, False, "light")
+                for then in TOP_THEN[tr]:
+                    full = ctx.budget(False, True) or op == "controller.remove_pairing" or (step == "pairingsM2" and "list" not in op and not op.startswith("cli."))
+                    for i, shape in enumerate(shapes if full else shapes[len(cases) % 3::3]):
+                        c = dict({"stream": "top", "transport": tr, "op": op, "level": "op", "step": step, "then": then, "load": "load_data" if op in TOP_CLI_OPS else loads[tr][len(cases) % len(loads[tr])],
+                                  "seed": rng.randrange(1 << 30)}, **shape)
+                        if tr == "ip":
+                            c["http"] = https[len(cases) % len(https)]
+                            if len(cases) % 3 == 2:
+                                c["wire"] = IP_WIRES[(len(cases) // 3) % len(IP_WIRES)]
+                        if tr == "ble":
+                            c.update(pdu_split=(0, 0, 5)[len(cases) % 3])
+                        cases.append(c)
+        if tr == "ble":
+            for op in TOP_PAIR_OPS:
+                for step in ("setupM2", "setupM4", "setupM6"):
+                    for then in ("stay", "drop", "close"):
+                        shapes = _cells(step, False, "light")
+                        for shape in (shapes if (ctx.budget(False, True) or (op == "controller.pair" and then == "stay")) else shapes[len(cases) % 3::3]):
+                            cases.append(dict({"stream": "top", "transport": tr, "op": op, "level": "op", "step": step, "then": then, "load": "found-by-scanner", "seed": rng.randrange(1 << 30),
+                                               "pdu_split": (0, 0, 5)[len(cases) % 3]}, **shape))
+            ops = ops + TOP_PAIR_OPS
+        # the genuine control exchanges (the operations must be able to succeed through the same scaffold)
+        for op in ops:
+            for load in (("found-by-scanner",) if op in TOP_PAIR_OPS else ("load_data",) if op in TOP_CLI_OPS else loads[tr]):
+                cases.append({"stream": "top", "transport": tr, "op": op, "level": "op", "step": None, "then": "stay", "load": load, "seed": rng.randrange(1 << 30)})
+    import collections
+    dropped, unjudged, scaffold = {}, {}, collections.Counter()
+    for case in cases:
+        try:
+            obs = loop.run_until_complete(_top_cell(case))
+        except _Runaway:
+            obs = {"out": "runaway", "scripted": 1, "requests": REQUEST_LIMIT, "runaway": True, "after": [], "keys": None}
+        except Exception as e:  # noqa: BLE001 - the scaffold around the operation (controller start-up, loading the pairing) failed: nothing was asked of the accessory
+            obs = {"out": "scaffold " + type(e).__name__, "scripted": 0, "requests": 0, "runaway": False, "after": [], "keys": None}
+            scaffold[f"{case['transport']} {case['op']} ({case.get('load')}): {type(e).__name__}: {str(e)[:120]}"] += 1
+        pend = [t for t in asyncio.all_tasks(loop) if not t.done()]
+        for t in pend:
+            t.cancel()
+        if pend:
+            loop.run_until_complete(asyncio.gather(*pend, return_exceptions=True))
+        ctx.evaluations += 1
+        ctx.nontrivial.add(("top", case["transport"], case["op"], case.get("step"), case.get("state"), case.get("code"), case.get("then"), case.get("load"), str(case.get("http")), case.get("pdu_split"), str(case.get("wire"))))
+        ctx.dist[f"top:{case['transport']}:{case['op']}:{case.get('step') or 'genuine'}:{case.get('then')}:{'handed' if obs.get('scripted') else 'not-handed'}:{obs['out']}"] += 1
+        if case.get("step") is None and not obs["out"].startswith("ok") and not (case["transport"] == "coap"):
+            ctx.notes.append(f"top {case['transport']} {case['op']} ({case['load']}): the genuine control exchange ended with {obs['out']} (the property makes no claim)")
+        if case.get("step") and obs.get("scripted") and case["op"] == "controller.remove_pairing" and obs.get("alias_after") is False and not obs["out"].startswith("ok"):
+            dropped.setdefault(case["transport"], (case, obs["out"]))
+        if case.get("step") and obs.get("scripted") and obs["out"].startswith("exc") and case.get("then") != "stay":
+            k = f"{case['transport']} {obs['out'][4:]} when the accessory answers {case['step']} and then does `{case['then']}`"
+            unjudged.setdefault(k, [0, case])[0] += 1
+        for sig, text in _judge_top(case, obs):
+            ctx.violation(f"top/{case['transport']}/{case['op']}/{case.get('step')}/{case.get('then')}/{sig}", text, case)
+    asyncio.set_event_loop(None)
+    loop.close()
+    for k, n in sorted(scaffold.items()):
+        ctx.notes.append(f"top level: the scaffold around the operation failed before anything was asked of the accessory ({n} cell(s), not judged): {k}")
+    for k, (n, case) in sorted(unjudged.items()):
+        ctx.notes.append(f"top level, not judged (the accessory took the link away behind its reply: only 'never returns normally' is demanded, the class of the failure is recorded): {k} - {n} cell(s), "
+                         f"e.g. {case['op']} state={case['state']} code={case['code']} http={case.get('http')} load={case.get('load')}")
+    for tr, (case, out) in sorted(dropped.items()):
+        ctx.notes.append(f"top level, recorded only: after Controller.remove_pairing FAILED ({out}; {tr}, accessory answered {case['step']} with state={case['state']} code={case['code']}) the alias is gone from "
+                         "Controller.aliases all the same - the unchanged library forgets the alias before it asks the accessory and does not put it back")
+    ctx.sample(cases[0])
+    ctx.notes.append(f"top level: {len(cases)} cells (transport x Controller.remove_pairing / operations of controller.aliases[alias] / Controller.async_find + pairing / the command line application's unpair, "
+                     "remove_pairing and pair commands x scripted step x reply shape x what the accessory does with the link behind its reply x load_pairing / load_data / advertisement order) through "
+                     "aiohomekit.Controller with its three backends")
 
 
 # =====================================================================================================================
@@ -2159,15 +3075,15 @@ def replay(ctx, driver, c):
             asyncio.set_event_loop(None)
             loop.close()
         return "; ".join(text for _, text in _judge_live(c, obs)) or None
-    if c.get("stream") in ("ble", "coap", "ip"):
+    if c.get("stream") in ("ble", "coap", "ip", "ble-delivery", "top"):
         from harness import simnet
         loop = simnet.VLoop()
         asyncio.set_event_loop(loop)
         try:
             try:
-                obs = loop.run_until_complete({"ble": _ble_cell, "coap": _coap_cell, "ip": _ip_cell}[c["stream"]](c))
+                obs = loop.run_until_complete({"ble": _ble_cell, "coap": _coap_cell, "ip": _ip_cell, "ble-delivery": _ble_cell, "top": _top_cell}[c["stream"]](c))
             except _Runaway:
-                obs = {"out": "runaway", "scripted": 1, "requests": REQUEST_LIMIT, "runaway": True, "after": [], "keys": None}
+                obs = {"out": "runaway", "scripted": 1, "requests": REQUEST_LIMIT, "runaway": True, "after": [], "keys": None, "said": []}
             pend = [t for t in asyncio.all_tasks(loop) if not t.done()]
             for t in pend:
                 t.cancel()
@@ -2176,7 +3092,7 @@ def replay(ctx, driver, c):
         finally:
             asyncio.set_event_loop(None)
             loop.close()
-        bad = _judge(c, obs)
+        bad = _judge_delivery(c, obs)[0] if c["stream"] == "ble-delivery" else (_judge_top(c, obs) if c["stream"] == "top" else _judge(c, obs))
         return "; ".join(text for _, text in bad) or None
     rng = ctx.rng
     sc = Scaffold(rng)
